@@ -105,7 +105,7 @@ let () =
         let rest = ref rest in
         let next () = match !rest with x :: r -> rest := r; x | [] -> failwith "eol" in
         let loc () = let (l, r) = loc_of_tokens !rest in rest := r; l in
-        let a = if next () = "0" then C.FX64 else C.FA64 in
+        let a = (match next () with "0" -> C.FX64 | "1" -> C.FA64 | "2" -> C.FX64A | _ -> C.FX86) in
         let ng = int_of_string (next ()) in
         let wgp = List.init ng (fun _ -> cz_of_string (next ())) in
         let nvc = int_of_string (next ()) in
@@ -124,7 +124,7 @@ let () =
            let mvs = List.map C.fmove_of vs in
            let allowed = List.map (fun r -> C.Reg (zi 0, r)) wgp @ List.map (fun r -> C.Reg (zi 1, r)) wvec
                          @ List.filter_map (fun v -> match v.C.f_out with C.Mem _ as l -> Some l | _ -> None) vs in
-           Printf.printf "Y ok valid=%d,wf=%d %s\n" (if C.validate mvs allowed ms then 1 else 0) (if C.fwf_inputb wgp wvec vs then 1 else 0) (join " ; " (List.map inst_s ms))
+           Printf.printf "Y ok valid=%d,wf=%d %s\n" (if C.validate mvs allowed ms then 1 else 0) (if C.fwf_inputb wgp wvec vs && C.farch_okb a vs then 1 else 0) (join " ; " (List.map inst_s ms))
          | C.SErr -> print_endline "Y err"
          | C.SFuel -> print_endline "Y fuel")
       | "D" :: rest ->
